@@ -174,6 +174,42 @@ def run(ctx):
                 if const_int(lo) == 1 and sym_is_call(hi_t, "len") or (const_int(lo) == 1 and "len(" in sym_str(hi_t) and hi_t[0] == "call"):
                     okc = guard1 = True  # 1..len with x[i] += x[i - 1]: empty for len < 2, no guard needed
             guard = locals().get("guard1", False) or any(op in ("Ge", "Gt") and "len" in sym_str(a) and const_int(b_) in (1, 2) for op, a, b_, bb in comparisons(rm))
+            if not (okc and guard):
+                # the same sums taken on the fly: the merge loop adds a running total of the local buckets
+                # (`acc += local; self.buckets[idx] += acc`) instead of making the local buckets cumulative first
+                from props.common import value_def
+
+                for c in nonforeign_calls(rm):
+                    if not (c.fn is rm and c.is_("IndexMut::index_mut") and "'buckets'" in repr(arg_syms(c)[0]) and is_param(_root(arg_syms(c)[0]), 0) and in_cycle(b, c.bb)):
+                        continue
+                    d_ = c.t["dest"]["l"]
+                    for i_, k_, st in b.stmts():
+                        if not (st["k"] == "assign" and st["p"]["l"] == d_ and st["p"].get("pr") == ["*"]):
+                            continue
+                        vd = value_def(b, st["rv"]["a"]) if st["rv"]["k"] == "use" else ("rv", i_, st["rv"])
+                        if vd[0] == "place":
+                            dd = [x for x in b.defs().get(vd[1]["l"], [])]
+                            vd = ("rv", dd[0][1], dd[0][3]["rv"]) if len(dd) == 1 and dd[0][0] == "assign" else vd
+                        if not (vd[0] == "rv" and vd[2]["k"] == "bin" and vd[2]["op"].startswith("Add")):
+                            continue
+                        acc = value_def(b, vd[2]["b"])
+                        if acc[0] != "var":
+                            continue
+                        A = acc[1]
+                        defs_ = b.defs().get(A, [])
+                        init = [x for x in defs_ if x[0] == "assign" and not in_cycle(b, x[1]) and x[3]["rv"]["k"] == "use" and (x[3]["rv"]["a"].get("const") or {}).get("int") == 0]
+                        steps = [(x[1], repr(strip_sym(sy.rvalue(x[3]["rv"], 0, frozenset())))) for x in defs_ if x[0] == "assign" and in_cycle(b, x[1])]
+                        from props.common import pointers_to
+
+                        ptrs_ = pointers_to(b, A)
+                        for c2 in nonforeign_calls(rm):
+                            if c2.fn is rm and c2.is_("AddAssign::add_assign") and in_cycle(b, c2.bb) and (c2.args[0].get("move") or c2.args[0].get("copy") or {}).get("l") in ptrs_:
+                                steps.append((c2.bb, "Add " + repr(arg_syms(c2)[1])))
+                        if len(init) == 1 and len(steps) == 1 and len(defs_) == len(init) + len([x for x in defs_ if x[0] == "assign" and in_cycle(b, x[1])]):
+                            txt = steps[0][1]
+                            running = "Add" in txt and "Enumerate" in txt and "from_elem" in txt  # acc + <element of the local buckets being enumerated>
+                            if running and b.dominates(steps[0][0], i_) and "Enumerate" in repr(arg_syms(c)[1]):
+                                okc = guard = True
             chk.ob("C15.a", f"{rm.path} [cumulative pass]", okc and guard, "bucketed[i + 1] += bucketed[i] for i in 0..len-1 (guarded for len < 2)" if okc and guard else "record_many has no cumulative pass over 0..len-1: batch counts are per-bucket, not cumulative", rm.loc())
             # break after the first match in the sample loop: the local-bucket increment block does not reach the inner loop head again
             inner_heads = [c for c in nonforeign_calls(rm) if c.is_("Iterator::next") and "enumerate" in sym_str(arg_syms(c)[0]).lower()]
@@ -219,7 +255,9 @@ def run(ctx):
             detail = f"{[callee_method_name(c) for c in sorts]}"
             if ok:
                 c = sorts[0]
-                if callee_method_name(c) == "sort_by":
+                # an unstable sort is as good when no two elements compare equal: the entries are the pairs of a map
+                from_map = "hash::map::HashMap" in repr(arg_syms(c)[0]) or "HashMap" in repr(arg_syms(c)[0])
+                if callee_method_name(c) == "sort_by" or (callee_method_name(c) == "sort_unstable_by" and from_map):
                     cl = strip_sym(Sym(c.fn).operand(c.args[1]))
                     cf = p.fn(cl[5]) if cl[0] == "agg" else None
                     r = strip_sym(Sym(cf).local(0)) if cf else None
@@ -228,7 +266,7 @@ def run(ctx):
                 elif callee_method_name(c) in ("sort_by_key", "sort_by_cached_key"):
                     ok = True
                 else:
-                    ok = callee_method_name(c) in ("sort", "sort_unstable")
+                    ok = callee_method_name(c) == "sort" or (callee_method_name(c) == "sort_unstable" and from_map)
             chk.ob("C15.b", f"{nw.path} [overrides sorted by matcher]", ok, "overrides are sorted ascending by matcher (Full, Prefix, Suffix)" if ok else f"overrides are not sorted ascending by their matcher ({detail}): precedence between full/prefix/suffix overrides is arbitrary or reversed", nw.loc())
         gd = one_method(chk, "C15.b", p, DB, "get_distribution")
         if gd:
